@@ -52,6 +52,7 @@ EXPECTED = {
     "bad_var": (of_errors.VariableNotFoundError,),
     "bad_entity": (ValueError,),
     "bad_period": (ValueError,),
+    "bad_period_long": (ValueError,),
     "add_divide": (IncompatibleOptionsError,),
     "bad_option": (InvalidOptionError,),
     "undef_param": (of_errors.ParameterNotFoundError,),
@@ -149,6 +150,8 @@ def applicable(world: World, kind_rec) -> list:
         spec = specs.get(var)
         if spec and spec["unit"] in BAD_PERIOD:
             out.append({"kind": "bad_period", "period": BAD_PERIOD[spec["unit"]]})
+        if spec and spec["unit"] == "day":
+            out.append({"kind": "bad_period_long", "period": "2018-01"})
         other = [n for n, s in specs.items() if s["entity"] != ent]
         if other:
             out.append({"kind": "bad_entity", "var": other[0]})
